@@ -55,6 +55,8 @@ def run_one(name, props=None, verbose=True):
                 ok = True
                 msgs.append("%s recorded as MISSED (outside the decided clauses): the check is %s on it" % (
                     pid, "silent" if p.returncode == 0 else "NOW FIRING - update meta.json"))
+                if os.environ.get("SELFTEST_SHOW") and p.returncode != 0:
+                    msgs.append("\n" + "\n".join(l for l in out.splitlines() if "[C" in l)[:3000])
             elif exp == "silent":
                 ok = p.returncode == 0
                 msgs.append("%s silent: %s" % (pid, "ok" if ok else "UNEXPECTED ALARM\n" + out[-1500:]))
